@@ -444,7 +444,10 @@ CHECKS["C04"] = dict(
 # ---------------------------------------------------------------- listener side (C01, C02; also the listener parts of C04 and C17)
 def _ls(h, workers=8, **params):
     mr = params.pop("must_reach", [])
-    return inst("internal/tree", h, params, workers=workers, must_reach=mr, solver="z3")
+    kw = {}
+    if "wall_s" in params:
+        kw["wall_s"] = params.pop("wall_s")
+    return inst("internal/tree", h, params, workers=workers, must_reach=mr, solver="z3", **kw)
 
 _LISTENER_NOTE = (" Listener side: the real parserListener is driven by the events of ANTLR's real ParseTreeWalker over a synthesised parse tree (real "
                   "generated context classes, terminal nodes and tokens) and the syntax tree built is compared with the one the parse tree denotes; all "
